@@ -46,6 +46,7 @@ static void run(int tier, int prog) {
   mv_start(cur->W);
   h_maybe_custom_steal(prog, cur->W);
   h_barrier_init(&bar, prog & 1, cur->N);
+  static h_sentinel_t sent; h_sentinel_start(&sent, 6, prog);
   myth_thread_t th[4]; int nt = 0;
   int nc = cur->main_in ? cur->N - 1 : cur->N;
   for (int i = 0; i < nc; i++) th[nt++] = myth_create(participant, (void *)(long)i);
@@ -57,6 +58,7 @@ static void run(int tier, int prog) {
   }
   MV_CHECK(bar.state == 0, "barrier count is %ld after the last round", (long)bar.state);
   mv_obs("N=%d r=%d ok", cur->N, cur->rounds);
+  h_sentinel_finish(&sent);
   h_barrier_epilogue(&bar, prog & 1);
   mv_finish();
 }
